@@ -199,6 +199,10 @@ fn check_unary<V: Copy + 'static>(cx: &mut Cx, io: &Io<V>, ops: &[U1<V>], prop: 
     let inputs = unary_inputs(io.nwords, io.wbits);
     for (name, f, model) in ops {
         cx.triples.push(format!("{}:{}:{}", cx.backend, io.tname, name));
+        if cx.triples.len() % 131 == 7 {
+            let w = &inputs[inputs.len() / 2];
+            cx.rep.sample(json!({"backend": cx.backend, "type": io.tname, "op": name, "input_words_le": hexw(w), "scalar_meaning": hexw(&model(w))}));
+        }
         let r = guarded(|| {
             for w in &inputs {
                 let got = (io.to)(f((io.from)(w)));
@@ -355,6 +359,9 @@ fn words_to_bytes(w: &[u32]) -> Vec<u8> {
 
 fn mv(cx: &mut Cx, tname: &str, what: &str, r: Result<Option<String>, String>, n: usize) {
     cx.triples.push(format!("{}:{}:{}", cx.backend, tname, what));
+    if cx.triples.len() % 41 == 3 {
+        cx.rep.sample(json!({"backend": cx.backend, "type": tname, "op": what, "inputs": n}));
+    }
     cx.rep.evaluations += n as u64;
     cx.rep.nontrivial += n as u64;
     let sig = format!("c13:{}:{}:{}", cx.backend, tname, what);
